@@ -46,9 +46,9 @@ def _run_json(cmd: List[str], wall: float, env_extra: Optional[dict] = None) -> 
     }
 
 
-def crosshair_job(modname: str, key: str, mode: str, timeout: float, per_path: Optional[float]):
+def crosshair_job(modname: str, key: str, mode: str, timeout: float, per_path: Optional[float], setorder: bool = False):
     cmd = [PY, "-m", "vf.worker", modname, key, mode, str(timeout), str(per_path) if per_path else "-"]
-    return _run_json(cmd, wall=timeout * 2.0 + 90)
+    return _run_json(cmd, wall=timeout * 2.0 + 90, env_extra={"VF_SETORDER": "1"} if setorder else None)
 
 
 def replay_job(modname: str, key: str, call: dict):
@@ -134,7 +134,7 @@ def run_property(prop: str, tier: str, seed: int, jobs: int, only: Optional[str]
                 f = ex.submit(e2_job, modname, o.key, tier, o.timeout * scale)
             else:
                 to = o.timeout * scale if mode == "main" else min(o.timeout * scale, 120.0)
-                f = ex.submit(crosshair_job, modname, o.key, mode, to, o.per_path_timeout)
+                f = ex.submit(crosshair_job, modname, o.key, mode, to, o.per_path_timeout, o.setorder and mode == "main")
             futs[f] = (o, mode)
         for f in cf.as_completed(futs):
             o, mode = futs[f]
